@@ -156,6 +156,18 @@ func StepWorkflowPaths(wf *workflow.Workflow) map[string]string {
 // SubworkflowCache creates a file cache of the sub-workflows referenced
 // in this workflow using rootDir as a context.
 func SubworkflowCache(wf *workflow.Workflow, rootDir string, converter workflow.YAMLConverter, flowCaches []loadfile.FileCache) (loadfile.FileCache, error) {
+	return expandSubworkflows(wf, rootDir, converter, flowCaches, map[string]struct{}{})
+}
+
+// expandSubworkflows is SubworkflowCache with the set of sub-workflow files currently being expanded,
+// so that a file that (transitively) refers to itself is reported instead of recursing for ever.
+func expandSubworkflows(
+	wf *workflow.Workflow,
+	rootDir string,
+	converter workflow.YAMLConverter,
+	flowCaches []loadfile.FileCache,
+	expanding map[string]struct{},
+) (loadfile.FileCache, error) {
 	stepWorkflowPaths := StepWorkflowPaths(wf)
 	if len(stepWorkflowPaths) == 0 {
 		return nil, nil
@@ -169,11 +181,16 @@ func SubworkflowCache(wf *workflow.Workflow, rootDir string, converter workflow.
 		return nil, err
 	}
 	for _, ctxFile := range subworkflowCache.Files() {
+		if _, cyclic := expanding[ctxFile.AbsolutePath]; cyclic {
+			return nil, fmt.Errorf("sub-workflow %s refers to itself, directly or through other sub-workflows", ctxFile.ID)
+		}
 		subwf, err := converter.FromYAML(ctxFile.Content)
 		if err != nil {
 			return nil, err
 		}
-		flowCache, err := SubworkflowCache(subwf, rootDir, converter, flowCaches)
+		expanding[ctxFile.AbsolutePath] = struct{}{}
+		flowCache, err := expandSubworkflows(subwf, rootDir, converter, flowCaches, expanding)
+		delete(expanding, ctxFile.AbsolutePath)
 		if err != nil {
 			return nil, err
 		}
